@@ -179,8 +179,14 @@ func (s *Schema) Validate(document jschema.Document) (err error) {
 }
 
 func (s *Schema) validate(document jschema.Document) error {
+	root := s.inner.RootNode()
+	if root == nil {
+		// An empty schema has no node to validate against (same answer as Example).
+		return errors.NewDocumentError(s.file, errors.ErrEmptySchema)
+	}
+
 	tree := validator.NewTree(
-		validator.NodeValidatorList(s.inner.RootNode(), *s.inner, nil),
+		validator.NodeValidatorList(root, *s.inner, nil),
 	)
 
 	empty := true
